@@ -557,9 +557,11 @@ func (p *Proof) iteValue(st *State, c *Term, a, b Value) Value {
 		y := b.(FuncV)
 		if x.Ref == nil {
 			x.Ref = B.Fresh("fn", SRef)
+			p.funcCodeFact(x.Ref, x.Fn)
 		}
 		if y.Ref == nil {
 			y.Ref = B.Fresh("fn", SRef)
+			p.funcCodeFact(y.Ref, y.Fn)
 		}
 		return FuncV{Ref: Ite(c, x.Ref, y.Ref)}
 	case ArrayV:
@@ -871,6 +873,8 @@ func (fr *Frame) numberSites() {
 	}
 }
 
+var noDynNames = map[string]bool{}
+
 func calleeShortName(cc *ssa.CallCommon) string {
 	if cc.IsInvoke() {
 		return cc.Method.Name()
@@ -882,6 +886,11 @@ func calleeShortName(cc *ssa.CallCommon) string {
 		return v.Name()
 	case *ssa.MakeClosure:
 		return shortFuncName(v.Fn.(*ssa.Function))
+	case *ssa.UnOp:
+		// a call through a local variable holding a function (getPC := func...; getPC(x)) is named after the variable
+		if a, ok := v.X.(*ssa.Alloc); ok && v.Op == token.MUL && a.Comment != "" && !noDynNames[a.Comment] {
+			return a.Comment
+		}
 	}
 	return "dyn"
 }
@@ -2358,3 +2367,18 @@ func (p *Proof) addrOf(st *State, x PtrV) *Term {
 }
 
 func mathFloat64bits(f float64) uint64 { return float64bits(f) }
+
+// funcCode: which function's code a function value runs (closures of one function literal share
+// it). Kept when two function values are merged at a join, so that a contract can say which
+// function a returned function value is (funcname).
+func funcCodeOf(ref *Term) *Term {
+	B.DeclareFun("fn.code", []string{SRef}, SBV(32))
+	return B.App("fn.code", SBV(32), ref)
+}
+
+func (p *Proof) funcCodeFact(ref *Term, fn *ssa.Function) {
+	if fn == nil {
+		return
+	}
+	p.assume(True(), Eq(funcCodeOf(ref), BVInt(int64(p.eng.pathID("fn:"+relName(fn))), 32)))
+}
